@@ -496,7 +496,7 @@ def run(ctx):
     base = os.path.join(ctx['work'], 'e2e')
     shutil.rmtree(base, ignore_errors=True)
     os.makedirs(base)
-    ntrees = 45 if tier == 'quick' else 500
+    ntrees = 45 if tier == 'quick' else 300
     per_tree = 6 if tier == 'quick' else 8
     pre = []    # (cfg, args, stdin, root, tree)
     kinds = {}
